@@ -261,6 +261,9 @@ func runC13(c *Ctx) {
 		})
 	}
 	c.Ev.Count("connections_with_out_of_order_completion", oooN)
+	if b.Proxy.Alive() && c.ViolationCount() == 0 {
+		c13Aborted(c, b, listeners)
+	}
 	alive := b.Proxy.Alive()
 	res := b.Stop()
 	if !alive {
@@ -382,6 +385,51 @@ func c13Limit(c *Ctx) {
 			if len(refused) == 0 {
 				c.Ev.Count("limit_never_reached_"+listener, 1)
 			}
+		}
+	}
+}
+
+
+// c13Aborted: connections that die in the middle of a frame (after the length prefix, inside the
+// body, after one octet of the prefix) must leave nothing behind: the connections opened next send
+// one complete query each and every one of them is decoded and answered.
+func c13Aborted(c *Ctx, b *Bed, listeners []string) {
+	for _, listener := range listeners {
+		var tc = b.ProxyTLS
+		if listener != "tls" {
+			tc = nil
+		}
+		for round := 0; round < 3; round++ {
+			for k := 0; k < 8; k++ {
+				sc, err := dnsclient.DialStream("", b.L[listener], tc)
+				if err != nil {
+					continue
+				}
+				frame := dnsclient.Frame(mkQuery(uint16(k), fmt.Sprintf("ok-ab%dr%d.pipe.test.", k, round), dns.TypeA, dns.ClassINET, false))
+				cut := []int{2, 1, 2 + (len(frame)-2)/2, len(frame) - 1}[k%4]
+				sc.WriteRaw(frame[:cut])
+				time.Sleep(5 * time.Millisecond)
+				sc.Close()
+			}
+			time.Sleep(50 * time.Millisecond)
+			answered := 0
+			var firstErr string
+			for k := 0; k < 8; k++ {
+				name := fmt.Sprintf("ok-fresh%dr%d%s.pipe.test.", k, round, listener)
+				x := b.Exchange(listener, mkQuery(uint16(100+k), name, dns.TypeA, dns.ClassINET, false), xOpts{Timeout: 4 * time.Second})
+				c.Ev.Eval(1)
+				m := new(dns.Msg)
+				if x.Err == nil && m.Unpack(x.Resp) == nil && m.Id == uint16(100+k) && m.Rcode == dns.RcodeSuccess {
+					answered++
+				} else if firstErr == "" {
+					firstErr = fmt.Sprintf("%v (%d octets)", x.Err, len(x.Resp))
+				}
+			}
+			if answered < 8 {
+				c.Violation("fresh-connection-not-served-after-aborted-ones:"+listener, fmt.Sprintf("%s: after 8 connections that were closed in the middle of a frame, only %d of 8 new connections with one complete query each were answered (first failure: %s)", listener, answered, firstErr), map[string]any{"listener": listener, "round": round, "answered": answered})
+				return
+			}
+			c.Ev.Distinct("aborted-then-fresh", listener, round)
 		}
 	}
 }
